@@ -1,12 +1,12 @@
 ------------------------------- MODULE LexStr -------------------------------
 (* C12 case generation: byte strings to be pushed through the real Escape/Unescape *)
 (* and EncodeName/DecodeName.  Every state is one input string.                   *)
-(*   Mode "alpha" : all strings of length <= MaxLen over the class alphabet AlphaS *)
+(*   Mode "alpha" : all strings of length MinLen..MaxLen over the class alphabet   *)
 (*                  (every byte the escaping/name rules single out + one member of *)
 (*                  every other range) plus NRand seeded longer strings            *)
 (*   Mode "bytes1": all 256 single bytes      Mode "bytes2": all 65536 byte pairs *)
 EXTENDS Lex, TLC, Json
-CONSTANTS Mode, MaxLen, AlphaN, NRand, Seed
+CONSTANTS Mode, MinLen, MaxLen, AlphaN, NRand, Seed, Slice, NSlices
 VARIABLE s
 
 AlphaAll == << 92, 40, 41, 13, 10, 9, 8, 12,    \* \ ( ) CR LF TAB BS FF
@@ -23,11 +23,15 @@ RECURSIVE RandStr(_, _)
 RandStr(x, n) == IF n = 0 THEN <<>> ELSE <<AlphaS[(x % Len(AlphaS)) + 1]>> \o RandStr(LCG(x), n - 1)
 RandCase(k) == LET x0 == LCG(((Seed % 65537) * 7919 + k * 31337) % 65537) IN RandStr(LCG(x0), MaxLen + 1 + (x0 % 5))
 
-Cases == CASE Mode = "alpha"  -> UNION {[1..k -> Alpha] : k \in 0..MaxLen} \cup {RandCase(k) : k \in 1..NRand}
-           [] Mode = "bytes1" -> {<<b>> : b \in Byte}
-           [] Mode = "bytes2" -> {<<a, b>> : a, b \in Byte}
-
-Init == s \in Cases
+(* Slice/NSlices split the case space by first symbol so that slices can be generated in parallel *)
+Mine(S) == {x \in S : x % NSlices = Slice}
+IsAlpha == Mode \in {"alpha", "alpha+bytes1"}
+Init == \/ IsAlpha /\ MinLen = 0 /\ Slice = 0 /\ s = <<>>
+        \/ IsAlpha /\ \E i \in Mine(1..Len(AlphaS)) : \E k \in 0..(MaxLen - 1) : \E f \in [1..k -> Alpha] :
+               k + 1 >= MinLen /\ s = <<AlphaS[i]>> \o f
+        \/ IsAlpha /\ \E k \in Mine(1..NRand) : s = RandCase(k)
+        \/ Mode \in {"bytes1", "alpha+bytes1"} /\ \E b \in Mine(Byte) : s = <<b>>
+        \/ Mode = "bytes2" /\ \E a \in Mine(Byte) : \E b \in Byte : s = <<a, b>>
 Next == FALSE /\ UNCHANGED s
 Spec == Init /\ [][Next]_s
 
